@@ -18,6 +18,7 @@ import (
 	"verif/h/internal/chainkit"
 	"verif/h/internal/core"
 	"verif/h/internal/rng"
+	"verif/shim/goshim"
 )
 
 // refChain is what the fault-free reference replica observed after each height.
@@ -234,6 +235,8 @@ type pendingBlock struct {
 func runCrash(c *core.Ctx) {
 	r := c.Rng
 	gseed := r.Uint64()
+	// the stand-in's random scalars (transaction keys, masks, nonces) follow the case seed as well
+	goshim.Seed(rng.Derive(c.Seed, "c13-shim", c.Index).Bytes(32))
 	kv := (c.Index/crashEvery/2)%2 == 1
 	g, err := chainkit.BuildGenesisMode(chainkit.GenesisOpts{Seed: gseed, NumAccounts: 5, Powers: []int64{10, 10, 10, 10}}, !kv)
 	if err != nil {
@@ -394,7 +397,15 @@ func runCrash(c *core.Ctx) {
 	} else {
 		c.Count("crash_cases_trie", 1)
 	}
-	c.Nontrivial(fmt.Sprintf("crash:%x", rng.Derive(0, fp, int(gseed%1000003)).Uint64()))
+	var withIn, withOut, without bool
+	for _, b := range x.chain {
+		withIn = withIn || b.Inputs > 0
+		withOut = withOut || b.Outs > 0
+		without = without || (b.Inputs == 0 && b.Outs == 0)
+	}
+	if withIn && withOut && without {
+		c.Nontrivial(fmt.Sprintf("crash:%x", rng.Derive(0, fp, int(gseed%1000003)).Uint64()))
+	}
 	if c.Index%8 == 0 {
 		c.Sample(map[string]interface{}{"lane": "crash", "flat_kv_mode": x.kv, "gomaxprocs": x.caseProcs, "chain": x.chain})
 	}
